@@ -140,7 +140,7 @@ class Library(object):
             elif isinstance(b, _TypingThing):
                 continue
             elif isinstance(b, Opaque):
-                raise OutsideSubset('base class %r' % b)
+                continue   # e.g. argparse.Action: never instantiated by pyvc
             else:
                 raise OutsideSubset('base class %r' % (b,))
         if not real:
@@ -275,7 +275,11 @@ class Library(object):
                 return b + dotted[len(a):]
         return dotted
 
+    MISSING_MODULES = ('shtab', 'scandir')   # absent from /venv (checked by selftest)
+
     def module(self, name):
+        if name.split('.')[0] in self.MISSING_MODULES:
+            raise PyExc(self.make_exc('ImportError', 'No module named ' + name))
         return LibModule(name)
 
     def environ(self):
@@ -285,6 +289,8 @@ class Library(object):
         return ctx.ghost['environ']
 
     def attr(self, modname, name):
+        if modname.split('.')[0] in self.MISSING_MODULES:
+            raise PyExc(self.make_exc('ImportError', 'No module named ' + modname))
         dotted = self.canon(modname + '.' + name)
         if dotted == 'os.environ':
             return self.environ()
@@ -544,11 +550,13 @@ class Library(object):
             if ok and len(lines) > 1:
                 return [mk(z3.Concat(*ln)) if len(ln) > 1 else mk(ln[0])
                         for ln in lines]
-        seq = spec.split_f(t, sepv)
         ctx.used_axioms.add('str.split: len>=1; element i has no separator '
                             '(instantiated at accessed indices)')
-        ctx.assume(z3.Length(seq) >= 1)
-        return SymSeq(seq, origin=('split', t, sep))
+        n = spec.split_len_f(t, sepv)
+        ctx.assume(n >= 1)
+        return SymSeq(n, lambda i, t=t, sepv=sepv: spec.split_at_f(
+            t, sepv, i if z3.is_expr(i) else z3.IntVal(i)), ('split', t, sepv),
+            origin=('split', t, sep))
 
     def _concat_pieces(self, t):
         if z3.is_string_value(t):
@@ -968,9 +976,9 @@ class Library(object):
             raise OutsideSubset('str[%r]' % (k,))
         if isinstance(o, SymSeq):
             if isinstance(k, int) and k >= 0:
-                if not I.ctx.branch(z3.Length(o.t) > k, 'seq-index-ok'):
+                if not I.ctx.branch(o.length > k, 'seq-index-ok'):
                     raise PyExc(self.make_exc('IndexError', 'list index'))
-                return mk(o.t[k])
+                return mk(o.at(k))
             raise OutsideSubset('symseq[%r]' % (k,))
         if isinstance(o, _TypingThing):
             return o
@@ -1039,7 +1047,7 @@ class Library(object):
         if _is_str(v) or _is_bytes(v):
             return mk(z3.Length(v.t))
         if isinstance(v, SymSeq):
-            return mk(z3.Length(v.t))
+            return mk(v.length)
         if isinstance(v, GenV):
             raise PyExc(self.make_exc(
                 'TypeError', "object of type 'generator' has no len()"))
@@ -1283,6 +1291,24 @@ class Library(object):
         r['pprint.pformat'] = B('pformat', lambda I, a, k: self.repr_of(a[0]))
         r['re.escape'] = Opaque('re.escape')
         r['random.randint'] = B('random.randint', self.lib_randint)
+        r['logging.getLogger'] = B('logging.getLogger', self.lib_get_logger)
+        r['logging.StreamHandler'] = B('logging.StreamHandler',
+                                       lambda I, a, k: None)
+        r['logging.WARNING'] = 30
+        r['logging.Logger'] = _TypingThing('Logger')
+
+    def lib_get_logger(self, I, a, k):
+        o = Obj(self.object_cls)
+        o.attrs['setLevel'] = Builtin('Logger.setLevel', lambda I, a, k: None)
+        o.attrs['addHandler'] = Builtin('Logger.addHandler',
+                                        lambda I, a, k: None)
+
+        def warning(I2, a2, k2):
+            # logging.StreamHandler() writes to stderr
+            I2.ctx.events.append(('write', 'stderr', a2[0]))
+            return None
+        o.attrs['warning'] = Builtin('Logger.warning', warning)
+        return o
 
     def lib_randint(self, I, a, k):
         v = I.ctx.fresh_int('rand')
